@@ -4,11 +4,13 @@ import (
 	"fmt"
 	"os"
 
+	"owverif.local/verif/checks/c04"
 	"owverif.local/verif/checks/c06"
 	"owverif.local/verif/checks/c10"
 	"owverif.local/verif/checks/c11"
 	"owverif.local/verif/checks/c12"
 	"owverif.local/verif/checks/c13"
+	"owverif.local/verif/checks/c14"
 	"owverif.local/verif/checks/c15"
 	"owverif.local/verif/checks/c16"
 	"owverif.local/verif/checks/c18"
@@ -18,11 +20,13 @@ import (
 )
 
 var registry = map[string]func() *vf.Check{
+	"C04": c04.Spec,
 	"C06": c06.Spec,
 	"C10": c10.Spec,
 	"C11": c11.Spec,
 	"C12": c12.Spec,
 	"C13": c13.Spec,
+	"C14": c14.Spec,
 	"C15": c15.Spec,
 	"C16": c16.Spec,
 	"C18": c18.Spec,
